@@ -3,6 +3,7 @@ SPECIFICATION Spec
 CONSTANTS
   MaxRows = 4
   Depth = 3
+  Ordered = FALSE
   TypeNames = {"Triple", "PairOpt", "Tri", "Rec"}
 INVARIANTS Agree WitnessSound WitnessComplete ArmAlwaysFound RowOrderIrrelevant Report
 CHECK_DEADLOCK FALSE
